@@ -28,9 +28,9 @@ impl Stack {
 //@endfn
 
 //@fn src/stack.rs Stack::reset
-//@props C01 C02 C03 C05 C06 C10 C11 C17 C09
+//@props C01 C02 C03 C05 C06 C08 C10 C11 C17 C09
 //@contract
-    ensures final(self).view() == Seq::<Kind>::empty(),
+    ensures final(self).view() == Seq::<Kind>::empty(), // @C08 @C01 @C17
 //@endfn
 
 //@fn src/stack.rs Stack::push
@@ -115,12 +115,13 @@ impl State {
 //@endfn
 
 //@fn src/state.rs State::reset
-//@props C08 C01 C05 C09
+//@props C08 C01 C02 C05 C17 C09
 //@contract
     ensures
         !final(self).proto_emitted, // @C08 @C05
-        final(self).memo@ == Map::<usize, StackObjectRef>::empty(), // @C08
-        final(self).stack.view() == Seq::<Kind>::empty(),
+        // a memo entry surviving into the next pickle is a GET of an index this pickle never defined (C02) and a simulation that no longer mirrors the bytes (C17)
+        final(self).memo@ == Map::<usize, StackObjectRef>::empty(), // @C08 @C02 @C17
+        final(self).stack.view() == Seq::<Kind>::empty(), // @C08 @C01 @C17
         final(self).version == old(self).version,
 //@endfn
 }
@@ -663,7 +664,7 @@ impl Generator {
 //@fn src/generator/stack_ops.rs Generator::cleanup_for_stop
 //@ghost Ghost(r): Ghost<RefState>
 //@props C01 C05 C11 C09
-//@subst self.state.version >= Version::V2 => vf_version_ge(self.state.version, Version::V2)
+//@rewrite R20
 //@rewrite R14 emit_opcode self.emit_opcode($1, Ghost(gr)); proof { let ghost gop: OpcodeKind = $1; lemma_run_push(r, gtr, gop, RefArg { idx: 0 }); lemma_codes_push(gtr, gop, RefArg { idx: 0 }); gtr = gtr.push((gop, RefArg { idx: 0 })); gr = sim_step(gop, RefArg { idx: 0 }, gr); }
 //@contract
     requires
@@ -1354,13 +1355,13 @@ pub fn get_random_module(&self, source: &mut GenerationSource) -> (r: Result<VfT
     }
 
 //@fn src/generator/mod.rs Generator::reset
-//@props C08 C01 C05 C06 C09
+//@props C08 C01 C02 C05 C06 C17 C09
 //@contract
     ensures
         final(self).output@ == Seq::<u8>::empty(), // @C08
-        final(self).view() == Seq::<Kind>::empty(), // @C08
-        final(self).state.memo@ == Map::<usize, StackObjectRef>::empty(), // @C08
-        !final(self).state.proto_emitted, // @C08
+        final(self).view() == Seq::<Kind>::empty(), // @C08 @C01 @C17
+        final(self).state.memo@ == Map::<usize, StackObjectRef>::empty(), // @C08 @C02 @C17
+        !final(self).state.proto_emitted, // @C08 @C05
         final(self).same_config_but_proto(old(self)),
 //@endfn
 
@@ -1371,7 +1372,7 @@ pub fn get_random_module(&self, source: &mut GenerationSource) -> (r: Result<VfT
 //@fn src/generator/validation.rs Generator::get_valid_opcodes
 //@ret res
 //@ghost Ghost(r): Ghost<RefState>
-//@props C01 C03 C05 C10 C11 C09
+//@props C01 C03 C05 C10 C11 C12 C09
 //@subst self.state.version as u8 => vf_version_u8(self.state.version)
 //@subst PICKLE_OPCODES.get(&version) => vf_pickle_opcodes(version)
 //@rewrite R15
@@ -1382,22 +1383,50 @@ pub fn get_random_module(&self, source: &mut GenerationSource) -> (r: Result<VfT
     ensures
         forall|i: int| 0 <= i < res@.len() ==> self.guard_ok(#[trigger] res@[i], r) && ref_proto(res@[i]) <= ver_num(self.state.version), // @C05 @C01
         res@.len() > 0, // @C11
+        // C12: no opcode of the protocol's vocabulary is dropped from the candidates in a state where its guard must say yes
+        forall|op: OpcodeKind| ref_proto(op) <= ver_num(self.state.version) && self.witness(op) ==> #[trigger] res@.contains(op), // @C12
 //@loop 1
             invariant
                 self.rel(r),
                 vf_i <= all_opcodes@.len(),
+                forall|op: OpcodeKind| ref_proto(op) <= ver_num(self.state.version) ==> #[trigger] all_opcodes@.contains(op),
+                forall|j: int| 0 <= j < vf_i && self.witness(#[trigger] all_opcodes@[j]) ==> vf_out@.contains(all_opcodes@[j]), // @C12
                 forall|i: int| 0 <= i < all_opcodes@.len() ==> ref_proto(#[trigger] all_opcodes@[i]) <= ver_num(self.state.version),
                 forall|i: int| 0 <= i < vf_out@.len() ==> self.guard_ok(#[trigger] vf_out@[i], r) && ref_proto(vf_out@[i]) <= ver_num(self.state.version),
                 forall|j: int| 0 <= j < vf_i && all_opcodes@[j] == OpcodeKind::None ==> vf_out@.len() > 0,
             decreases all_opcodes@.len() - vf_i,
+//@before 1 let op = all_opcodes[vf_i];
+            let ghost out0 = vf_out@;
+//@before 1 vf_i += 1;
+            proof {
+                assert(forall|k: int| 0 <= k < out0.len() ==> vf_out@[k] == out0[k]);
+                assert forall|j: int| 0 <= j < vf_i + 1 && self.witness(#[trigger] all_opcodes@[j]) implies vf_out@.contains(all_opcodes@[j]) by {
+                    if j < vf_i {
+                        let k = choose|k: int| 0 <= k < out0.len() && out0[k] == all_opcodes@[j];
+                        assert(vf_out@[k] == all_opcodes@[j]);
+                    } else {
+                        assert(vf_out@[vf_out@.len() - 1] == op);
+                    }
+                }
+            }
+//@before 2 vf_out
+        proof {
+            assert forall|op: OpcodeKind| ref_proto(op) <= ver_num(self.state.version) && self.witness(op) implies #[trigger] vf_out@.contains(op) by {
+                assert(all_opcodes@.contains(op));
+                let j = choose|j: int| 0 <= j < all_opcodes@.len() && all_opcodes@[j] == op;
+                assert(self.witness(all_opcodes@[j]));
+            }
+        }
 //@endfn
 
 //@fn src/generator/validation.rs Generator::weighted_choice
 //@ret res
-//@props C01 C11 C09
+//@props C01 C11 C12 C09
 //@contract
     ensures
         opcodes@.len() > 0 ==> opcodes@.contains(res),
+        // C12: the alternative taken is exactly the one the entropy source drew (every candidate can be chosen: u9_*_onto)
+        opcodes@.len() > 0 ==> res == opcodes@[old(source).draw_index(opcodes.len()) as int], // @C12
 //@endfn
 
     /// every body chunk is non-empty and starts with the byte of the opcode the trace records for it
@@ -1485,9 +1514,9 @@ pub fn get_random_module(&self, source: &mut GenerationSource) -> (r: Result<VfT
 
 //@fn src/generator/core.rs Generator::generate_internal
 //@ret res
-//@props C01 C02 C03 C04 C05 C06 C08 C09 C10 C11
+//@props C01 C02 C03 C04 C05 C06 C08 C09 C10 C11 C12
 //@sigsubst Result<Vec<u8>> => Result<Vec<u8>, VfError>
-//@subst self.state.version >= Version::V4 => vf_version_ge(self.state.version, Version::V4)
+//@rewrite R20
 //@rewrite R16
 //@subst self.output.len().checked_sub(pos + 9).ok_or_else(|| { ... })? => vf_checked_sub_or_err(self.output.len(), pos + 9)?
 //@subst color_eyre::eyre::eyre!( ... ) => VfError { code: 2 }
@@ -1511,6 +1540,9 @@ pub fn get_random_module(&self, source: &mut GenerationSource) -> (r: Result<VfT
         let ghost mut gtr: Trace = Seq::empty();
         let ghost mut gch: Seq<Seq<u8>> = Seq::empty();
         let ghost a0 = RefArg { idx: 0 };
+//@before 1 self.emit_proto(source)
+        // C12: for protocols >= 4 framing is decided by a coin drawn from the entropy source (both outcomes occur: u9_*_gen_bool_both)
+        proof { assert(ver_num(self.state.version) >= 4 ==> use_frame == source.last_bool()); } // @C12
 //@before 1 let mut vf_i: usize = 0;
         let ghost hdr0 = self.output@;
         let ghost h = Generator::hdr_len(ver_num(self.state.version), use_frame);
@@ -2090,7 +2122,7 @@ pub fn get_random_module(&self, source: &mut GenerationSource) -> (r: Result<VfT
 //@ret res
 //@props C04 C06 C09 C10
 //@sigsubst Result<Vec<u8>> => Result<Vec<u8>, VfError>
-//@subst self.state.version >= Version::V4 => vf_version_ge(self.state.version, Version::V4)
+//@rewrite R20
 //@rewrite R16
 //@subst self.output.len().checked_sub(pos + 9).ok_or_else(|| { ... })? => vf_checked_sub_or_err(self.output.len(), pos + 9)?
 //@subst color_eyre::eyre::eyre!( ... ) => VfError { code: 2 }
@@ -2109,6 +2141,9 @@ pub fn get_random_module(&self, source: &mut GenerationSource) -> (r: Result<VfT
         let ghost mut gr: RefState = empty_state();
         let ghost mut gch: Seq<Seq<u8>> = Seq::empty();
         let ghost a0 = RefArg { idx: 0 };
+//@before 1 self.emit_proto(source)
+        // C12: for protocols >= 4 framing is decided by a coin drawn from the entropy source (both outcomes occur: u9_*_gen_bool_both)
+        proof { assert(ver_num(self.state.version) >= 4 ==> use_frame == source.last_bool()); } // @C12
 //@before 1 let mut vf_i: usize = 0;
         let ghost hdr0 = self.output@;
         let ghost h = Generator::hdr_len(ver_num(self.state.version), use_frame);
